@@ -286,3 +286,420 @@ Proof.
   { rewrite Hc. unfold nlen in Hj. nia. }
   apply swap_loop_sym; lia.
 Qed.
+
+Lemma nth_eq_of_ne : forall {A} (l1 l2 : list A) i j d,
+    (i < length l1)%nat -> nth_error l1 i = nth_error l2 j -> nth i l1 d = nth j l2 d.
+Proof.
+  intros A l1 l2 i j d Hi E. rewrite (ne_nth l1 i d Hi) in E.
+  symmetry. apply nth_error_nth. symmetry. exact E.
+Qed.
+
+Lemma content_at_slot : forall a p lim, arr_inv a -> p < lim -> p < a_mem a ->
+    content_at a (a_siz a * p) lim = Some (nth (N.to_nat p) (a_sl a) []).
+Proof.
+  intros a p lim I Hl Hm. unfold content_at. rewrite slot_of_mul by (apply (inv_siz a I)).
+  destruct (N.ltb_spec p lim); [|lia].
+  rewrite sl_read_slot; [reflexivity|apply (inv_siz a I)|rewrite (inv_len a I); assumption].
+Qed.
+
+(** ** a_vec_remove / a_buf_remove: both implementations *)
+Lemma arr_remove_spec : forall a idx, arr_inv a ->
+    exists a' o, arr_remove a idx = Ok (a', o) /\ arr_inv a'
+      /\ a_siz a' = a_siz a /\ a_mem a' = a_mem a
+      /\ ((a_num a = 0 /\ a' = a /\ o = None)
+          \/ (0 < a_num a /\ a_num a' = a_num a - 1 /\ abs a' = sp_remove (abs a) idx
+              /\ exists off p, o = Some off /\ slot_ptr (a_siz a) (a_mem a) p off /\ a_num a' <= p
+                               /\ content_at a' off (a_mem a') = Some (sp_removed (abs a) idx))).
+Proof.
+  intros a idx I.
+  pose proof (inv_siz a I) as Hs. pose proof (inv_num a I) as Hn. pose proof (inv_len a I) as Hl.
+  pose proof (off_lt a (a_mem a) I (N.le_refl _)) as Hb. pose proof HALF_lt_W as HW.
+  pose proof (inv_elem a I) as He. pose proof (mem_lt_half a I) as Hm.
+  assert (Hlen : length (a_sl a) = N.to_nat (a_mem a)) by (unfold nlen in *; lia).
+  assert (Hoff : forall k, k <= a_mem a -> a_siz a * k < W).
+  { intros k Hk. pose proof (mul_le_l (a_siz a) k (a_mem a) Hk). lia. }
+  unfold arr_remove.
+  destruct (N.eqb_spec (a_num a) 0) as [Hz|Hz].
+  { cbn [negb andb]. exists a, None. splits; auto. }
+  cbn [negb andb]. rewrite wsub_eq by lia.
+  destruct (N.ltb_spec idx (a_num a - 1)) as [Hi|Hi].
+  - assert (E1 : wmul (a_siz a) idx = a_siz a * idx) by (apply wmul_eq, Hoff; lia).
+    assert (E2 : wadd (a_siz a * idx) (a_siz a) = a_siz a * (idx + 1))
+      by (rewrite wadd_eq; [lia|pose proof (Hoff (idx + 1)); lia]).
+    rewrite E1, E2.
+    destruct (N.ltb_spec (a_num a) (a_mem a)) as [Hf|Hf].
+    + (* a spare slot exists: copy out, close the gap *)
+      assert (E3 : wmul (a_siz a) (a_num a) = a_siz a * a_num a) by (apply wmul_eq, Hoff; lia).
+      assert (E4 : wsub (a_siz a * a_num a) (a_siz a * (idx + 1)) = a_siz a * (a_num a - idx - 1)).
+      { pose proof (mul_le_l (a_siz a) (idx + 1) (a_num a)). pose proof (Hoff (a_num a)).
+        rewrite wsub_eq by lia. lia. }
+      rewrite E3, E4.
+      replace (sl_copy (a_siz a) (a_sl a) (a_siz a * a_num a) (a_siz a * idx) (a_siz a))
+        with (sl_copy (a_siz a) (a_sl a) (a_siz a * a_num a) (a_siz a * idx) (a_siz a * 1))
+        by (rewrite N.mul_1_r; reflexivity).
+      rewrite sl_copy_slot by lia. cbn [bind].
+      assert (L1 : length (lmove (N.to_nat (a_num a)) (N.to_nat idx) (N.to_nat 1) (a_sl a))
+                   = length (a_sl a)) by (apply lmove_length; lia).
+      rewrite sl_move_slot; [|lia|unfold nlen; rewrite L1; unfold nlen in Hl; lia
+                              |unfold nlen; rewrite L1; unfold nlen in Hl; lia].
+      cbn [bind]. eexists. eexists. split; [reflexivity|].
+      assert (L2 : length (lmove (N.to_nat idx) (N.to_nat (idx + 1)) (N.to_nat (a_num a - idx - 1))
+                                 (lmove (N.to_nat (a_num a)) (N.to_nat idx) (N.to_nat 1) (a_sl a)))
+                   = length (a_sl a)) by (rewrite lmove_length; lia).
+      splits; cbn [a_siz a_mem a_num a_sl]; auto.
+      * constructor; cbn [a_siz a_mem a_num a_sl]; auto.
+        -- lia.
+        -- unfold nlen in *. rewrite L2. assumption.
+        -- apply Forall_lmove, Forall_lmove. assumption.
+      * right. splits; [lia|reflexivity| |].
+        -- unfold abs, sp_remove, rm_pos. cbn [a_num a_sl]. fold (abs a). rewrite (abs_length a I).
+           unfold abs. apply nth_error_ext; intro k. ne_norm.
+           rewrite !ne_lmove by lia. ne_split; ne_leaf.
+        -- exists (a_siz a * a_num a), (a_num a). unfold slot_ptr. splits; try lia; try reflexivity.
+           set (a' := mkArr _ _ _ _).
+           assert (I' : arr_inv a').
+           { constructor; cbn [a' a_siz a_mem a_num a_sl]; auto.
+             - lia.
+             - unfold nlen in *. rewrite L2. assumption.
+             - apply Forall_lmove, Forall_lmove. assumption. }
+           change (a_siz a) with (a_siz a'). rewrite content_at_slot by (cbn; auto; lia).
+           f_equal. cbn [a' a_sl]. unfold sp_removed, rm_pos. rewrite (abs_length a I). unfold abs.
+           apply nth_eq_of_ne; [lia|]. ne_norm. rewrite !ne_lmove by lia. ne_split; ne_leaf.
+    + (* exactly full: a_swap(p, q, ptr - p) rotates the element to the last slot *)
+      assert (E3 : wmul (a_siz a) (a_num a - 1) = a_siz a * (a_num a - 1)) by (apply wmul_eq, Hoff; lia).
+      assert (E4 : wsub (a_siz a * (a_num a - 1)) (a_siz a * idx) = a_siz a * (a_num a - 1 - idx)).
+      { pose proof (mul_le_l (a_siz a) idx (a_num a - 1)). pose proof (Hoff (a_num a - 1)).
+        rewrite wsub_eq by lia. lia. }
+      rewrite E3, E4. rewrite sl_swap_rot by (auto; lia). cbn [bind].
+      eexists. eexists. split; [reflexivity|].
+      assert (L2 : length (lrot (N.to_nat idx) (N.to_nat (a_num a - 1 - idx)) (a_sl a)) = length (a_sl a))
+        by (apply lrot_length; lia).
+      assert (I' : arr_inv (mkArr (a_siz a) (a_num a - 1) (a_mem a)
+                                  (lrot (N.to_nat idx) (N.to_nat (a_num a - 1 - idx)) (a_sl a)))).
+      { constructor; cbn [a_siz a_mem a_num a_sl]; auto.
+        - lia.
+        - unfold nlen in *. rewrite L2. assumption.
+        - apply Forall_lrot; [lia|assumption]. }
+      splits; cbn [a_siz a_mem a_num a_sl]; auto.
+      right. splits; [lia|reflexivity| |].
+      * unfold abs, sp_remove, rm_pos. cbn [a_num a_sl]. fold (abs a). rewrite (abs_length a I).
+        unfold abs. apply nth_error_ext; intro k. ne_norm.
+        rewrite !ne_lrot by lia. ne_split; ne_leaf.
+      * exists (a_siz a * (a_num a - 1)), (a_num a - 1). unfold slot_ptr. splits; try lia; try reflexivity.
+        set (a' := mkArr _ _ _ _) in *.
+        change (a_siz a) with (a_siz a'). rewrite content_at_slot by (cbn; auto; lia).
+        f_equal. cbn [a' a_sl]. unfold sp_removed, rm_pos. rewrite (abs_length a I). unfold abs.
+        apply nth_eq_of_ne; [lia|]. ne_norm. rewrite !ne_lrot by lia. ne_split; ne_leaf.
+  - (* the last element (or an index beyond it): a_vec_dec_ *)
+    unfold arr_dec. rewrite wsub_eq by lia.
+    assert (E3 : wmul (a_siz a) (a_num a - 1) = a_siz a * (a_num a - 1)) by (apply wmul_eq, Hoff; lia).
+    rewrite E3. eexists. eexists. split; [reflexivity|].
+    assert (I' : arr_inv (mkArr (a_siz a) (a_num a - 1) (a_mem a) (a_sl a))).
+    { constructor; cbn [a_siz a_mem a_num a_sl]; auto. lia. }
+    splits; cbn [a_siz a_mem a_num a_sl]; auto.
+    right. splits; [lia|reflexivity| |].
+    + unfold abs, sp_remove, rm_pos. cbn [a_num a_sl]. fold (abs a). rewrite (abs_length a I).
+      unfold abs. apply nth_error_ext; intro k. ne_norm. ne_split; ne_leaf.
+    + exists (a_siz a * (a_num a - 1)), (a_num a - 1). unfold slot_ptr. splits; try lia; try reflexivity.
+      set (a' := mkArr _ _ _ _) in *.
+      change (a_siz a) with (a_siz a'). rewrite content_at_slot by (cbn; auto; lia).
+      f_equal. cbn [a' a_sl]. unfold sp_removed, rm_pos. rewrite (abs_length a I). unfold abs.
+      apply nth_eq_of_ne; [lia|]. ne_norm. ne_split; ne_leaf.
+Qed.
+
+(** ** pull_back *)
+Lemma arr_pull_back_spec : forall a, arr_inv a ->
+    exists a' o, arr_pull_back a = (a', o) /\ arr_inv a'
+      /\ a_siz a' = a_siz a /\ a_mem a' = a_mem a
+      /\ ((a_num a = 0 /\ a' = a /\ o = None)
+          \/ (0 < a_num a /\ a_num a' = a_num a - 1 /\ abs a' = removelast (abs a)
+              /\ exists off p, o = Some off /\ slot_ptr (a_siz a) (a_mem a) p off /\ a_num a' <= p
+                               /\ content_at a' off (a_mem a') = Some (last (abs a) []))).
+Proof.
+  intros a I.
+  pose proof (inv_siz a I) as Hs. pose proof (inv_num a I) as Hn. pose proof (inv_len a I) as Hl.
+  pose proof (off_lt a (a_mem a) I (N.le_refl _)) as Hb. pose proof HALF_lt_W as HW.
+  pose proof (inv_elem a I) as He. pose proof (mem_lt_half a I) as Hm.
+  assert (Hlen : length (a_sl a) = N.to_nat (a_mem a)) by (unfold nlen in *; lia).
+  unfold arr_pull_back.
+  destruct (N.eqb_spec (a_num a) 0) as [Hz|Hz].
+  { exists a, None. splits; auto. }
+  unfold arr_dec. rewrite wsub_eq by lia.
+  assert (E3 : wmul (a_siz a) (a_num a - 1) = a_siz a * (a_num a - 1)).
+  { apply wmul_eq. pose proof (mul_le_l (a_siz a) (a_num a - 1) (a_mem a)). lia. }
+  rewrite E3. eexists. eexists. split; [reflexivity|].
+  assert (I' : arr_inv (mkArr (a_siz a) (a_num a - 1) (a_mem a) (a_sl a))).
+  { constructor; cbn [a_siz a_mem a_num a_sl]; auto. lia. }
+  splits; cbn [a_siz a_mem a_num a_sl]; auto.
+  right. splits; [lia|reflexivity| |].
+  - unfold abs. cbn [a_num a_sl].
+    assert (E : firstn (N.to_nat (a_num a)) (a_sl a)
+                = firstn (N.to_nat (a_num a - 1)) (a_sl a) ++ [nth (N.to_nat (a_num a - 1)) (a_sl a) []]).
+    { apply nth_error_ext; intro k. ne_norm. rewrite <- (ne_nth (a_sl a) _ []) by lia.
+      ne_split; ne_leaf. }
+    rewrite E. rewrite removelast_last. reflexivity.
+  - exists (a_siz a * (a_num a - 1)), (a_num a - 1). unfold slot_ptr. splits; try lia; try reflexivity.
+    set (a' := mkArr _ _ _ _) in *.
+    change (a_siz a) with (a_siz a'). rewrite content_at_slot by (cbn; auto; lia).
+    f_equal. cbn [a' a_sl]. unfold abs.
+    assert (E : firstn (N.to_nat (a_num a)) (a_sl a)
+                = firstn (N.to_nat (a_num a - 1)) (a_sl a) ++ [nth (N.to_nat (a_num a - 1)) (a_sl a) []]).
+    { apply nth_error_ext; intro k. ne_norm. rewrite <- (ne_nth (a_sl a) _ []) by lia.
+      ne_split; ne_leaf. }
+    rewrite E. rewrite last_last. reflexivity.
+Qed.
+
+(** ** bulk reads and writes *)
+Lemma sl_write_many_slot : forall siz vs sl k, 0 < siz -> k + nlen vs <= nlen sl -> siz * nlen sl < W ->
+    sl_write_many siz sl (siz * k) vs = Ok (lwrite (N.to_nat k) (map (fit siz) vs) sl).
+Proof.
+  intros siz vs. induction vs as [|v vs IH]; intros sl k Hs Hk Hb.
+  - cbn. f_equal. unfold lwrite. cbn [length app]. rewrite Nat.add_0_r. symmetry. apply firstn_skipn.
+  - cbn [sl_write_many]. unfold nlen in Hk. cbn [length] in Hk.
+    rewrite sl_write_slot by (unfold nlen; lia). cbn [bind].
+    assert (E : wadd (siz * k) siz = siz * (k + 1)).
+    { rewrite wadd_eq; [lia|]. pose proof (mul_le_l siz (k + 1) (nlen sl)). unfold nlen in *. lia. }
+    rewrite E.
+    assert (L1 : length (lupd sl (N.to_nat k) (fit siz v)) = length sl) by (apply lupd_length; lia).
+    rewrite IH; [|assumption|unfold nlen; rewrite L1; lia|unfold nlen in *; rewrite L1; assumption].
+    f_equal. apply nth_error_ext; intro j. cbn [map].
+    rewrite !ne_lwrite by (rewrite ?L1; cbn [length]; rewrite ?map_length; lia).
+    rewrite ne_lupd by lia. cbn [length]. rewrite !map_length. ne_norm. ne_split; ne_leaf.
+Qed.
+
+Lemma sl_read_many_slot : forall siz c sl k, 0 < siz -> k + N.of_nat c <= nlen sl -> siz * nlen sl < W ->
+    sl_read_many siz sl (siz * k) c = Ok (firstn c (skipn (N.to_nat k) sl)).
+Proof.
+  intros siz c. induction c as [|c IH]; intros sl k Hs Hk Hb; [reflexivity|].
+  cbn [sl_read_many]. rewrite sl_read_slot by lia. cbn [bind].
+  assert (E : wadd (siz * k) siz = siz * (k + 1)).
+  { rewrite wadd_eq; [lia|]. pose proof (mul_le_l siz (k + 1) (nlen sl)). lia. }
+  rewrite E, IH by lia. cbn [bind]. f_equal.
+  apply nth_error_ext; intro j. ne_norm. unfold nlen in Hk.
+  rewrite <- (ne_nth sl _ []) by lia. ne_split; ne_leaf.
+Qed.
+
+Lemma fill_from_slot : forall c a p v, 0 < a_siz a -> p + N.of_nat c <= nlen (a_sl a) ->
+    a_siz a * nlen (a_sl a) < W ->
+    fill_from a (a_siz a * p) c v
+    = Ok (mkArr (a_siz a) (a_num a) (a_mem a) (lwrite (N.to_nat p) (repeat (fit (a_siz a) v) c) (a_sl a))).
+Proof.
+  induction c as [|c IH]; intros a p v Hs Hp Hb.
+  - cbn. destruct a as [z n m sl]. cbn. f_equal. f_equal. unfold lwrite. cbn [length app].
+    rewrite Nat.add_0_r. symmetry. apply firstn_skipn.
+  - cbn [fill_from]. unfold put. rewrite sl_write_slot by lia. cbn [bind a_siz].
+    assert (E : wadd (a_siz a * p) (a_siz a) = a_siz a * (p + 1)).
+    { rewrite wadd_eq; [lia|]. pose proof (mul_le_l (a_siz a) (p + 1) (nlen (a_sl a))). lia. }
+    rewrite E. unfold nlen in Hp.
+    assert (L1 : length (lupd (a_sl a) (N.to_nat p) (fit (a_siz a) v)) = length (a_sl a))
+      by (apply lupd_length; lia).
+    set (a1 := mkArr _ _ _ _).
+    change (a_siz a) with (a_siz a1) at 1.
+    rewrite IH; cbn [a1 a_siz a_sl a_num a_mem];
+      [|assumption|unfold nlen; rewrite L1; lia|unfold nlen in *; rewrite L1; assumption].
+    f_equal. f_equal. apply nth_error_ext; intro j.
+    rewrite !ne_lwrite by (rewrite ?L1, ?repeat_length; cbn [length]; rewrite ?repeat_length; lia).
+    rewrite ne_lupd by lia. cbn [repeat length]. rewrite !repeat_length. ne_norm. ne_split; ne_leaf.
+Qed.
+
+(** ** a_vec_store / a_buf_store once the capacity is there *)
+Lemma arr_store_spec : forall a idx vs, arr_inv a -> a_num a + nlen vs <= a_mem a ->
+    exists a', arr_store a idx vs = Ok a' /\ arr_inv a'
+      /\ a_siz a' = a_siz a /\ a_mem a' = a_mem a
+      /\ abs a' = sp_store (abs a) idx (map (fit (a_siz a)) vs).
+Proof.
+  intros a idx vs I Hroom.
+  pose proof (inv_siz a I) as Hs. pose proof (inv_num a I) as Hn. pose proof (inv_len a I) as Hl.
+  pose proof (off_lt a (a_mem a) I (N.le_refl _)) as Hb. pose proof HALF_lt_W as HW.
+  pose proof (inv_elem a I) as He. pose proof (mem_lt_half a I) as Hm.
+  assert (Hlen : length (a_sl a) = N.to_nat (a_mem a)) by (unfold nlen in *; lia).
+  assert (Hoff : forall k, k <= a_mem a -> a_siz a * k < W).
+  { intros k Hk. pose proof (mul_le_l (a_siz a) k (a_mem a) Hk). lia. }
+  unfold arr_store.
+  destruct (N.eqb_spec (nlen vs) 0) as [Hz|Hz].
+  { exists a. splits; auto. unfold sp_store. destruct vs; [|unfold nlen in Hz; cbn in Hz; lia].
+    cbn [map app]. symmetry. apply firstn_skipn. }
+  assert (E1 : wmul (a_siz a) (a_num a) = a_siz a * a_num a) by (apply wmul_eq, Hoff; lia).
+  assert (E2 : wmul (a_siz a) (nlen vs) = a_siz a * nlen vs) by (apply wmul_eq, Hoff; lia).
+  rewrite E1, E2.
+  assert (Hvs : length vs = N.to_nat (nlen vs)) by (unfold nlen; lia).
+  destruct (N.ltb_spec idx (a_num a)) as [Hi|Hi].
+  - assert (E3 : wmul (a_siz a) idx = a_siz a * idx) by (apply wmul_eq, Hoff; lia).
+    assert (E4 : wadd (a_siz a * idx) (a_siz a * nlen vs) = a_siz a * (idx + nlen vs))
+      by (rewrite wadd_eq; [lia|pose proof (Hoff (idx + nlen vs)); lia]).
+    assert (E5 : wsub (a_siz a * a_num a) (a_siz a * idx) = a_siz a * (a_num a - idx)).
+    { pose proof (mul_le_l (a_siz a) idx (a_num a)). pose proof (Hoff (a_num a)).
+      rewrite wsub_eq by lia. lia. }
+    rewrite E3, E4, E5. rewrite sl_move_slot by lia. cbn [bind fst snd].
+    assert (L1 : length (lmove (N.to_nat (idx + nlen vs)) (N.to_nat idx) (N.to_nat (a_num a - idx)) (a_sl a))
+                 = length (a_sl a)) by (apply lmove_length; lia).
+    assert (NL1 : nlen (lmove (N.to_nat (idx + nlen vs)) (N.to_nat idx) (N.to_nat (a_num a - idx)) (a_sl a))
+                  = a_mem a) by (unfold nlen at 1; rewrite L1; exact Hl).
+    rewrite sl_write_many_slot; [|assumption|rewrite NL1; lia|rewrite NL1; apply Hoff; lia].
+    cbn [bind]. eexists. split; [reflexivity|].
+    assert (L2 : length (lwrite (N.to_nat idx) (map (fit (a_siz a)) vs)
+                   (lmove (N.to_nat (idx + nlen vs)) (N.to_nat idx) (N.to_nat (a_num a - idx)) (a_sl a)))
+                 = length (a_sl a)) by (rewrite lwrite_length; rewrite ?map_length; lia).
+    splits; cbn [a_siz a_mem a_num a_sl]; auto.
+    + constructor; cbn [a_siz a_mem a_num a_sl]; auto.
+      * rewrite wadd_eq by lia. lia.
+      * unfold nlen in *. rewrite L2. assumption.
+      * unfold lwrite. rewrite !Forall_app. splits.
+        -- apply Forall_firstn, Forall_lmove. assumption.
+        -- rewrite Forall_map. rewrite Forall_forall. intros; apply fit_ok.
+        -- apply Forall_skipn, Forall_lmove. assumption.
+    + unfold abs, sp_store, clampn. cbn [a_num a_sl]. rewrite wadd_eq by lia.
+      fold (abs a). rewrite (abs_length a I). unfold abs.
+      apply nth_error_ext; intro k. ne_norm.
+      rewrite !ne_lwrite by (rewrite ?map_length; lia). rewrite !ne_lmove by lia.
+      rewrite ?map_length. ne_split; ne_leaf.
+  - cbn [bind fst snd].
+    rewrite sl_write_many_slot; [|assumption|lia|rewrite Hl; apply Hoff; lia].
+    cbn [bind]. eexists. split; [reflexivity|].
+    assert (L2 : length (lwrite (N.to_nat (a_num a)) (map (fit (a_siz a)) vs) (a_sl a))
+                 = length (a_sl a)) by (rewrite lwrite_length; rewrite ?map_length; lia).
+    splits; cbn [a_siz a_mem a_num a_sl]; auto.
+    + constructor; cbn [a_siz a_mem a_num a_sl]; auto.
+      * rewrite wadd_eq by lia. lia.
+      * unfold nlen in *. rewrite L2. assumption.
+      * unfold lwrite. rewrite !Forall_app. splits.
+        -- apply Forall_firstn. assumption.
+        -- rewrite Forall_map. rewrite Forall_forall. intros; apply fit_ok.
+        -- apply Forall_skipn. assumption.
+    + unfold abs, sp_store, clampn. cbn [a_num a_sl]. rewrite wadd_eq by lia.
+      fold (abs a). rewrite (abs_length a I). unfold abs.
+      apply nth_error_ext; intro k. ne_norm.
+      rewrite !ne_lwrite by (rewrite ?map_length; lia).
+      rewrite ?map_length. ne_split; ne_leaf.
+Qed.
+
+(** ** a_vec_erase / a_buf_erase (with FIX C04-2) *)
+Lemma arr_erase_spec : forall a idx cnt dt, arr_inv a ->
+    exists a' rc d, arr_erase a idx cnt dt = Ok (a', rc, d) /\ arr_inv a'
+      /\ a_siz a' = a_siz a /\ a_mem a' = a_mem a
+      /\ ((idx < a_num a /\ rc = A_SUCCESS /\ abs a' = sp_erase (abs a) idx cnt
+           /\ d = if dt then sp_erased (abs a) idx cnt else [])
+          \/ (a_num a <= idx /\ rc = A_OBOUNDS /\ a' = a /\ d = [])).
+Proof.
+  intros a idx cnt dt I.
+  pose proof (inv_siz a I) as Hs. pose proof (inv_num a I) as Hn. pose proof (inv_len a I) as Hl.
+  pose proof (off_lt a (a_mem a) I (N.le_refl _)) as Hb. pose proof HALF_lt_W as HW.
+  pose proof (inv_elem a I) as He. pose proof (mem_lt_half a I) as Hm.
+  assert (Hlen : length (a_sl a) = N.to_nat (a_mem a)) by (unfold nlen in *; lia).
+  assert (Hoff : forall k, k <= a_mem a -> a_siz a * k < W).
+  { intros k Hk. pose proof (mul_le_l (a_siz a) k (a_mem a) Hk). lia. }
+  unfold arr_erase.
+  destruct (N.ltb_spec idx (a_num a)) as [Hi|Hi]; cbn [andb].
+  - rewrite wsub_eq by lia.
+    assert (E1 : wmul (a_siz a) idx = a_siz a * idx) by (apply wmul_eq, Hoff; lia).
+    rewrite E1. rewrite andb_true_r.
+    destruct (N.ltb_spec cnt (a_num a - idx)) as [Hc|Hc].
+    + (* a proper middle range *)
+      rewrite wadd_eq by lia.
+      destruct (N.leb_spec (idx + cnt) (a_num a)) as [_|C]; [|lia].
+      replace (idx + cnt - idx) with cnt by lia.
+      destruct (N.leb_spec cnt (nlen (a_sl a))) as [_|C]; [|lia].
+      assert (D : (if dt then sl_read_many (a_siz a) (a_sl a) (a_siz a * idx) (N.to_nat cnt) else Ok [])
+                  = Ok (if dt then sp_erased (abs a) idx cnt else [])).
+      { destruct dt; [|reflexivity]. rewrite sl_read_many_slot by (try rewrite Hl; auto; lia).
+        f_equal. unfold sp_erased, er_end. rewrite (abs_length a I). unfold abs.
+        apply nth_error_ext; intro k. ne_norm. ne_split; ne_leaf. }
+      rewrite D. cbn [bind].
+      destruct (N.ltb_spec (idx + cnt) (a_num a)) as [_|C]; [|lia].
+      assert (E2 : wmul (a_siz a) cnt = a_siz a * cnt) by (apply wmul_eq, Hoff; lia).
+      assert (E3 : wadd (a_siz a * idx) (a_siz a * cnt) = a_siz a * (idx + cnt))
+        by (rewrite wadd_eq; [lia|pose proof (Hoff (idx + cnt)); lia]).
+      assert (E4 : wmul (wsub (a_num a) (idx + cnt)) (a_siz a) = a_siz a * (a_num a - (idx + cnt))).
+      { rewrite wsub_eq by lia. rewrite wmul_eq; [lia|]. rewrite N.mul_comm. apply Hoff. lia. }
+      rewrite E2, E3, E4. rewrite sl_move_slot by lia. cbn [bind].
+      rewrite wsub_eq by lia.
+      eexists. eexists. eexists. split; [reflexivity|].
+      assert (L1 : length (lmove (N.to_nat idx) (N.to_nat (idx + cnt)) (N.to_nat (a_num a - (idx + cnt))) (a_sl a))
+                   = length (a_sl a)) by (apply lmove_length; lia).
+      splits; cbn [a_siz a_mem a_num a_sl]; auto.
+      * constructor; cbn [a_siz a_mem a_num a_sl]; auto.
+        -- lia.
+        -- unfold nlen in *. rewrite L1. assumption.
+        -- apply Forall_lmove. assumption.
+      * left. splits; auto.
+        unfold abs, sp_erase, er_end. cbn [a_num a_sl]. fold (abs a). rewrite (abs_length a I). unfold abs.
+        apply nth_error_ext; intro k. ne_norm. rewrite !ne_lmove by lia. ne_split; ne_leaf.
+    + (* everything from idx on *)
+      destruct (N.leb_spec (a_num a) (a_num a)) as [_|C]; [|lia].
+      destruct (N.leb_spec (a_num a - idx) (nlen (a_sl a))) as [_|C]; [|lia].
+      assert (D : (if dt then sl_read_many (a_siz a) (a_sl a) (a_siz a * idx) (N.to_nat (a_num a - idx)) else Ok [])
+                  = Ok (if dt then sp_erased (abs a) idx cnt else [])).
+      { destruct dt; [|reflexivity]. rewrite sl_read_many_slot by (try rewrite Hl; auto; lia).
+        f_equal. unfold sp_erased, er_end. rewrite (abs_length a I). unfold abs.
+        apply nth_error_ext; intro k. ne_norm. ne_split; ne_leaf. }
+      rewrite D. cbn [bind].
+      destruct (N.ltb_spec (a_num a) (a_num a)) as [C|_]; [lia|].
+      eexists. eexists. eexists. split; [reflexivity|].
+      splits; cbn [a_siz a_mem a_num a_sl]; auto.
+      * constructor; cbn [a_siz a_mem a_num a_sl]; auto. lia.
+      * left. splits; auto.
+        unfold abs, sp_erase, er_end. cbn [a_num a_sl]. fold (abs a). rewrite (abs_length a I). unfold abs.
+        apply nth_error_ext; intro k. ne_norm. ne_split; ne_leaf.
+  - rewrite andb_false_r. cbn [bind].
+    destruct (N.ltb_spec (a_num a) (a_num a)) as [C|_]; [lia|].
+    exists a, A_OBOUNDS, []. splits; auto.
+Qed.
+
+(** ** the destructor loop of setn / setz / die *)
+Lemma arr_dtor_down_spec : forall a n dt, arr_inv a ->
+    arr_dtor_down a n dt = Ok (if dt then rev (skipn (N.to_nat n) (abs a)) else []).
+Proof.
+  intros a n dt I.
+  pose proof (inv_siz a I) as Hs. pose proof (inv_num a I) as Hn. pose proof (inv_len a I) as Hl.
+  pose proof (off_lt a (a_mem a) I (N.le_refl _)) as Hb. pose proof HALF_lt_W as HW.
+  unfold arr_dtor_down. destruct dt; [|reflexivity]. cbn [andb].
+  destruct (N.ltb_spec n (a_num a)) as [Hi|Hi].
+  - destruct (N.leb_spec (a_num a - n) (nlen (a_sl a))) as [_|C]; [|lia].
+    rewrite wmul_eq by (pose proof (mul_le_l (a_siz a) n (a_mem a)); lia).
+    rewrite sl_read_many_slot by (try rewrite Hl; auto; lia). cbn [bind]. f_equal. f_equal.
+    unfold abs. unfold nlen in Hl. apply nth_error_ext; intro k. ne_norm. ne_split; ne_leaf.
+  - f_equal. rewrite skipn_all2; [reflexivity|]. rewrite (abs_length_nat a I). lia.
+Qed.
+
+(** ** resizing the count (after the capacity step) and the harness fill *)
+Lemma arr_setn_fill : forall a n fill, arr_inv a -> n <= a_mem a ->
+    exists a3,
+      (if a_num a <? n
+       then (if n - a_num a <=? nlen (a_sl a)
+             then fill_from (mkArr (a_siz a) n (a_mem a) (a_sl a)) (wmul (a_siz a) (a_num a))
+                            (N.to_nat (n - a_num a)) fill
+             else Err OutOfBounds)
+       else Ok (mkArr (a_siz a) n (a_mem a) (a_sl a))) = Ok a3
+      /\ arr_inv a3 /\ a_siz a3 = a_siz a /\ a_mem a3 = a_mem a
+      /\ abs a3 = sp_setn (abs a) n (fit (a_siz a) fill).
+Proof.
+  intros a n fill I Hn'.
+  pose proof (inv_siz a I) as Hs. pose proof (inv_num a I) as Hn. pose proof (inv_len a I) as Hl.
+  pose proof (off_lt a (a_mem a) I (N.le_refl _)) as Hb. pose proof HALF_lt_W as HW.
+  pose proof (inv_elem a I) as He.
+  assert (Hlen : length (a_sl a) = N.to_nat (a_mem a)) by (unfold nlen in *; lia).
+  destruct (N.ltb_spec (a_num a) n) as [Hg|Hg].
+  - destruct (N.leb_spec (n - a_num a) (nlen (a_sl a))) as [_|C]; [|lia].
+    rewrite wmul_eq by (pose proof (mul_le_l (a_siz a) (a_num a) (a_mem a)); lia).
+    set (a2 := mkArr _ _ _ _). change (a_siz a) with (a_siz a2) at 1.
+    rewrite fill_from_slot; cbn [a2 a_siz a_sl a_num a_mem]; [|assumption|lia|rewrite Hl; lia].
+    eexists. split; [reflexivity|].
+    assert (L2 : length (lwrite (N.to_nat (a_num a)) (repeat (fit (a_siz a) fill) (N.to_nat (n - a_num a))) (a_sl a))
+                 = length (a_sl a)) by (rewrite lwrite_length; rewrite ?repeat_length; lia).
+    splits; cbn [a_siz a_mem a_num a_sl]; auto.
+    + constructor; cbn [a_siz a_mem a_num a_sl]; auto.
+      * unfold nlen in *. rewrite L2. assumption.
+      * unfold lwrite. rewrite !Forall_app. splits.
+        -- apply Forall_firstn. assumption.
+        -- apply Forall_repeat, fit_ok.
+        -- apply Forall_skipn. assumption.
+    + unfold abs, sp_setn. cbn [a_num a_sl]. fold (abs a). rewrite (abs_length_nat a I). unfold abs.
+      apply nth_error_ext; intro k. ne_norm.
+      rewrite !ne_lwrite by (rewrite ?repeat_length; lia). rewrite ?repeat_length. ne_norm.
+      ne_split; ne_leaf.
+  - eexists. split; [reflexivity|].
+    splits; cbn [a_siz a_mem a_num a_sl]; auto.
+    + constructor; cbn [a_siz a_mem a_num a_sl]; auto.
+    + unfold abs, sp_setn. cbn [a_num a_sl]. fold (abs a). rewrite (abs_length_nat a I). unfold abs.
+      apply nth_error_ext; intro k. ne_norm. ne_split; ne_leaf.
+Qed.
